@@ -20,6 +20,7 @@ json.dump(out, open('known_findings.json','w'), indent=1)
 PY
       git add known_findings.json
     fi
+    for f in $(git diff --name-only --diff-filter=U | grep '^evidence/'); do git checkout --ours "$f"; git add "$f"; done
     if [ -n "$(git diff --name-only --diff-filter=U)" ]; then echo "UNRESOLVED CONFLICTS:"; git diff --name-only --diff-filter=U; exit 1; fi
     git commit --no-edit -q
   fi
